@@ -19,7 +19,7 @@ pub use super::reload::analyze_ip_reload;
 pub use super::sequence::SequenceTracker;
 pub use super::uplink::{
     ConnIo, ConnIoMap, ConnectionId, ReaderHandle, UplinkPacket, create_uplink_channel,
-    sync_readers,
+    restart_reader_for, sync_readers,
 };
 pub use super::uplink_recv::process_uplink_packet;
 
